@@ -108,6 +108,10 @@ def run_history(ctx, I, n_units, init, ops):
             ln = len(prov)
             tab = [[bool(x) for x in np.asarray(prov.query(np.array(a))).tolist()] for a in asg]
             back = [[bool(prov[i].eval(list(a))) for i in range(ln)] for a in asg]
+            tab_b = [[bool(x) for x in np.asarray(prov.query(np.array(a, dtype=bool))).tolist()] for a in asg]
+            if tab_b != tab:
+                return dict(step=k, op=op, what="query with a boolean indicator vector differs from the same query with integers",
+                            impl=dict(bool=tab_b, int=tab), spec=None), mops
         except Exception as e:  # noqa
             return dict(step=k, op=op, what="len/query/readback raised", impl=exc_name(e) + ": " + repr(e), spec=len(ref)), mops
         stab = [[spec.expr_true(e, a) for e in ref] for a in asg]
